@@ -17,7 +17,8 @@ for pid in sys.argv[2:]:
         except Exception as e:
             m = {"summary": "meta.json unreadable: %s" % e}
         m["property"] = pid
-        m["origin"] = "independent sub-agent given only the property text (wave 2)"
+        m["origin"] = "independent sub-agent given only the property text (wave %s)" % os.environ.get("WAVE", "2")
+        if os.environ.get("SEED_BASE"): m["base"] = os.environ["SEED_BASE"]
         json.dump(m, open(os.path.join(dst, "meta.json"), "w"), indent=1)
         names.append("%s-%s" % (pid, letter))
 r = subprocess.run(["python3", "/verif/tools/verify_seed.py"] + ["/verif/seeded/" + n for n in names], capture_output=True, text=True)
